@@ -36,6 +36,12 @@ class Sym:
         return repr(self.p)
 
 
+class FloatSym(Sym):
+    """a symbolic value known to be a float (isinstance(v, float) holds; finiteness unknown)"""
+
+    __slots__ = ()
+
+
 def topoly(v):
     if isinstance(v, Sym):
         return v.p
@@ -356,6 +362,17 @@ class Interp:
                         elif al.name == "weakref":
                             found = Namespace("weakref", {"WeakKeyDictionary": Builtin("WeakKeyDictionary", lambda *a: {}), "WeakValueDictionary": Builtin("WeakValueDictionary", lambda *a: {}),
                                                           "WeakSet": Builtin("WeakSet", lambda *a: set()), "ref": Builtin("weakref.ref", lambda o, *a: Builtin("ref()", lambda: o))})
+                        elif al.name == "math":
+                            import math as _m
+
+                            def _mf(fn):
+                                def f(*a):
+                                    if not all(isinstance(x, (int, float)) and not isinstance(x, bool) for x in a):
+                                        raise AnalysisError(f"peval: math.{fn} of non-concrete values {a!r}")
+                                    return getattr(_m, fn)(*a)
+                                return Builtin(f"math.{fn}", f)
+
+                            found = Namespace("math", {k: _mf(k) for k in ("ceil", "floor", "sqrt", "log2", "gcd")})
                         elif al.name == "itertools":
                             found = Namespace("itertools", {"count": Builtin("itertools.count", lambda start=0, step=1: IterVal(count_from=start, step=step)),
                                                             "product": Builtin("itertools.product", lambda *a, **k: list(itertools.product(*[self.iterate(x) for x in a], **k))),
@@ -377,6 +394,33 @@ class Interp:
                                 return _c.defaultdict(fac, *a, **k)
 
                             found = Builtin("defaultdict", _dd)
+                        elif st.module == "collections" and al.name == "namedtuple":
+                            def _nt(tname, fields, defaults=None, **_k):
+                                fl_ = fields.replace(",", " ").split() if isinstance(fields, str) else list(self.iterate(fields))
+                                dfl = list(self.iterate(defaults)) if defaults is not None else []
+
+                                def mk(*a, **k):
+                                    vals = list(a)
+                                    for i_, f_ in enumerate(fl_[len(vals):], start=len(vals)):
+                                        if f_ in k:
+                                            vals.append(k[f_])
+                                        elif i_ >= len(fl_) - len(dfl):
+                                            vals.append(dfl[i_ - (len(fl_) - len(dfl))])
+                                        else:
+                                            raise PyExc("TypeError", f"{tname}() missing argument {f_}")
+                                    if len(vals) != len(fl_) or set(k) - set(fl_):
+                                        raise PyExc("TypeError", f"{tname}() arguments")
+                                    o = Obj("instance", dict(zip(fl_, vals)), name=tname)
+                                    o.attrs["__getitem__"] = Builtin(f"{tname}[]", lambda i: vals[i])
+                                    o.attrs["__len__"] = Builtin(f"len({tname})", lambda: len(vals))
+                                    o.attrs["_asdict"] = Builtin(f"{tname}._asdict", lambda: dict(zip(fl_, vals)))
+                                    o.attrs["_replace"] = Builtin(f"{tname}._replace", lambda **kw: mk(**{**dict(zip(fl_, vals)), **kw}))
+                                    o.attrs["_fields"] = tuple(fl_)
+                                    return o
+
+                                return Builtin(tname, mk)
+
+                            found = Builtin("namedtuple", _nt)
                         elif st.module == "collections" and al.name == "OrderedDict":
                             found = Builtin("OrderedDict", lambda *a, **k: dict(*a, **k))
                         elif st.module == "itertools" and al.name == "count":
@@ -394,6 +438,8 @@ class Interp:
                 fr = Frame(None, g, modname)
                 found = self.eval(st.value, fr)
             if found is not None:
+                if isinstance(st, (ast.Assign, ast.AnnAssign)) and isinstance(found, (dict, list, set)):
+                    self._replay_module_mutations(mod, modname, name, st, g, found)
                 break
         if found is None:
             if name in self.builtins:
@@ -401,6 +447,31 @@ class Interp:
             raise AnalysisError(f"peval: name `{name}` not found in module {modname}")
         g[name] = found
         return found
+
+    def _replay_module_mutations(self, mod, modname, name, defst, g, val):
+        """a module-level container that later module-level statements fill in (loops, item assignments,
+        .update() calls) has the value it has after those statements, not the value of its first binding"""
+        seen_def = False
+        g[name] = val
+        for st in self._toplevel(mod.raw_tree.body):
+            if st is defst:
+                seen_def = True
+                continue
+            if not seen_def:
+                continue
+            if isinstance(st, (ast.FunctionDef, ast.ClassDef, ast.Import, ast.ImportFrom)):
+                continue
+            if isinstance(st, ast.Assign) and any(isinstance(t, ast.Name) and t.id == name for t in st.targets):
+                raise AnalysisError(f"peval: module-level `{name}` of {modname} is bound twice")
+            writes = False
+            for n in ast.walk(st):
+                if isinstance(n, ast.Subscript) and isinstance(n.ctx, (ast.Store, ast.Del)) and isinstance(n.value, ast.Name) and n.value.id == name:
+                    writes = True
+                if isinstance(n, ast.Call) and isinstance(n.func, ast.Attribute) and isinstance(n.func.value, ast.Name) and n.func.value.id == name and n.func.attr in ("update", "append", "extend", "add", "pop", "setdefault", "insert", "remove", "clear", "discard"):
+                    writes = True
+            if writes:
+                fr = Frame(None, g, modname)
+                self.exec(st, fr)
 
     def _toplevel(self, body):
         for st in body:
@@ -480,6 +551,11 @@ class Interp:
     def getattr(self, v, name, node=None, default=KeyError):
         # instance of a class
         if isinstance(v, Obj) and v.kind != "class":
+            if v.cls is not None and v.kind == "instance" and not (name.startswith("__") and name.endswith("__")):
+                a, owner = self.find_in_class(v.cls, name)
+                if owner is not None and self._is_descriptor(a, "__set__") and self._is_descriptor(a, "__get__"):
+                    # data descriptor of the class wins over the instance dictionary
+                    return self.call(self.getattr(a, "__get__"), [v, v.cls], {})
             if name in v.attrs:
                 return v.attrs[name]
             if name == "__class__" and v.cls is not None:
@@ -489,6 +565,8 @@ class Interp:
             if v.cls is not None:
                 a, owner = self.find_in_class(v.cls, name)
                 if owner is not None:
+                    if v.kind == "instance" and self._is_descriptor(a, "__get__"):
+                        return self.call(self.getattr(a, "__get__"), [v, v.cls], {})
                     return self._bind(a, v, v.cls)
         elif isinstance(v, (ClassVal, Obj)):
             if name == "__name__":
@@ -542,6 +620,25 @@ class Interp:
         if default is not KeyError:
             return default
         raise PyExc("AttributeError", f"{v!r} has no attribute {name}")
+
+    def _is_descriptor(self, a, meth):
+        """a is an instance (created by evaluated code) of a class that defines `meth` (__get__/__set__)"""
+        return isinstance(a, Obj) and a.kind == "instance" and a.cls is not None and self.find_in_class(a.cls, meth)[1] is not None
+
+    def setattr(self, o, name, v):
+        if isinstance(o, Obj):
+            if o.kind == "instance" and o.cls is not None and not (name.startswith("__") and name.endswith("__")):
+                a, owner = self.find_in_class(o.cls, name)
+                if owner is not None and self._is_descriptor(a, "__set__"):
+                    self.call(self.getattr(a, "__set__"), [o, v], {})
+                    return
+            o.attrs[name] = v
+        elif isinstance(o, ClassVal):
+            self.class_attrs(o)[name] = v
+        elif isinstance(o, Opaque):
+            pass
+        else:
+            raise AnalysisError(f"peval: attribute store on {o!r}")
 
     def hasattr(self, v, name):
         if isinstance(v, Opaque):
@@ -712,6 +809,24 @@ class Interp:
             else:
                 self.exec_block(st.orelse, fr)
             return
+        if isinstance(st, ast.While):
+            broke = False
+            while True:
+                self.steps += 1
+                if self.steps > MAX_STEPS:
+                    raise AnalysisError("peval: step limit exceeded (while loop)")
+                if not self.truth(self.eval(st.test, fr), st.test):
+                    break
+                try:
+                    self.exec_block(st.body, fr)
+                except _Break:
+                    broke = True
+                    break
+                except _Continue:
+                    continue
+            if not broke:
+                self.exec_block(st.orelse, fr)
+            return
         if isinstance(st, ast.For):
             itv = self.eval(st.iter, fr)
             if isinstance(itv, list) or isinstance(itv, LiveEnum):
@@ -824,14 +939,7 @@ class Interp:
                 self.assign(e, x, fr)
         elif isinstance(t, ast.Attribute):
             o = self.eval(t.value, fr)
-            if isinstance(o, Obj):
-                o.attrs[t.attr] = v
-            elif isinstance(o, ClassVal):
-                self.class_attrs(o)[t.attr] = v
-            elif isinstance(o, Opaque):
-                pass
-            else:
-                raise AnalysisError(f"peval: attribute store on {o!r}")
+            self.setattr(o, t.attr, v)
         elif isinstance(t, ast.Subscript):
             c = self.eval(t.value, fr)
             k = self.eval(t.slice, fr)
@@ -870,6 +978,22 @@ class Interp:
             return sorted(v, key=repr)
         if hasattr(v, "__iter__") and not isinstance(v, (Obj, Opaque, Sym)):
             return list(v)
+        if isinstance(v, Obj) and v.kind != "class":
+            it = self.getattr(v, "__iter__", default=None)
+            if it is not None:
+                r = self.call(it, [], {})
+                return self.iterate(r, node)
+            gi = self.getattr(v, "__getitem__", default=None)
+            if gi is not None:  # the old sequence protocol: __getitem__(0), (1), ... until IndexError
+                out = []
+                for i in range(100000):
+                    try:
+                        out.append(self.call(gi, [i], {}))
+                    except PyExc as e:
+                        if e.etype == "IndexError":
+                            return out
+                        raise
+                raise AnalysisError("peval: sequence-protocol iteration does not end")
         raise AnalysisError(f"peval: cannot iterate {v!r} at `{norm(node)[:60] if node is not None else '?'}`")
 
     # ------------------------------------------------------------------ expressions
@@ -952,6 +1076,10 @@ class Interp:
                     return False
                 left = right
             return res
+        if isinstance(e, ast.NamedExpr):
+            v = self.eval(e.value, fr)
+            self.assign(e.target, v, fr)
+            return v
         if isinstance(e, ast.IfExp):
             return self.eval(e.body, fr) if self.truth(self.eval(e.test, fr), e.test) else self.eval(e.orelse, fr)
         if isinstance(e, (ast.List, ast.Tuple, ast.Set)):
@@ -1241,6 +1369,12 @@ class Interp:
                 return Builtin("dict.setdefault", lambda k, d=None: v.setdefault(k, d))
             if name == "pop":
                 return Builtin("dict.pop", lambda k, *d: v.pop(k, *d))
+            if name == "clear":
+                return Builtin("dict.clear", lambda: v.clear())
+            if name == "popitem":
+                return Builtin("dict.popitem", lambda: v.popitem())
+            if name == "__contains__":
+                return Builtin("dict.__contains__", lambda k: k in v)
         if isinstance(v, list):
             if name == "append":
                 return Builtin("list.append", lambda x: v.append(x))
@@ -1256,13 +1390,20 @@ class Interp:
                 return Builtin("list.insert", lambda i, x: v.insert(i, x))
             if name == "pop":
                 return Builtin("list.pop", lambda *a: v.pop(*a))
+            if name == "clear":
+                return Builtin("list.clear", lambda: v.clear())
+            if name == "reverse":
+                return Builtin("list.reverse", lambda: v.reverse())
+            if name == "count":
+                return Builtin("list.count", lambda x: sum(1 for y in v if self._eq(y, x) is True))
         if isinstance(v, tuple):
             if name == "index":
                 return Builtin("tuple.index", lambda x: _index(self, v, x))
         if isinstance(v, str):
             if name in ("join",):
                 return Builtin("str.join", lambda it: v.join(str(x) if not isinstance(x, str) else x for x in self.iterate(it)))
-            if name in ("endswith", "startswith", "upper", "lower", "strip", "split", "capitalize", "replace", "splitlines", "rstrip", "lstrip", "format", "find"):
+            if name in ("endswith", "startswith", "upper", "lower", "strip", "split", "capitalize", "replace", "splitlines", "rstrip", "lstrip", "format", "find", "rfind", "rsplit", "partition", "rpartition", "index", "rindex",
+                        "count", "encode", "isdigit", "isidentifier", "isalpha", "isalnum", "isspace", "title", "ljust", "rjust", "zfill", "center", "removeprefix", "removesuffix", "expandtabs", "casefold", "swapcase", "isupper", "islower"):
                 return Builtin(f"str.{name}", lambda *a, **k: getattr(v, name)(*a, **k))
         raise PyExc("AttributeError", f"{type(v).__name__}.{name}")
 
@@ -1279,8 +1420,12 @@ class Interp:
             return isinstance(v, int) and not isinstance(v, bool) or isinstance(v, Sym) or (isinstance(v, bool))
         if c is str:
             return isinstance(v, str)
+        if c is float and isinstance(v, FloatSym):
+            return True
         if c in (dict, list, tuple, float, set, bool):
             return isinstance(v, c)
+        if isinstance(c, Opaque) and c.tag in ("np.floating", "np.float64", "np.number") and isinstance(v, FloatSym):
+            return True
         if isinstance(v, Opaque):
             nm = getattr(c, "name", None) or getattr(c, "tag", None) or str(c)
             return Unk(f"isinstance({v.tag}, {nm})")
@@ -1328,10 +1473,8 @@ class Interp:
             return I.getattr(o, n)
 
         def _setattr(o, n, v):
-            if isinstance(o, Obj):
-                o.attrs[n] = v
-            elif isinstance(o, ClassVal):
-                I.class_attrs(o)[n] = v
+            if isinstance(o, (Obj, ClassVal)):
+                I.setattr(o, n, v)
             return None
 
         def _type(*a):
@@ -1352,6 +1495,14 @@ class Interp:
                     return type(None)
                 return Opaque("type")
             name, bases, data = a
+            # three-argument form: the metaclass of the bases builds the class (as `class name(*bases)` would)
+            for b_ in bases:
+                mm = I.class_meta(b_) if isinstance(b_, (Obj, ClassVal)) else None
+                if mm is not None:
+                    nw, owner = I.find_in_class(mm, "__new__")
+                    if owner is not None and isinstance(nw, FuncVal):
+                        return I.call_function(nw, [mm, name, tuple(bases), dict(data)], {})
+                    return Obj("class", dict(data), meta=mm, bases=[b for b in bases], name=name)
             return Obj("class", dict(data), bases=[b for b in bases], name=name)
 
         def _type_new(meta, name, bases, data):
@@ -1427,6 +1578,7 @@ class Interp:
             "tuple": tuple,
             "list": list,
             "dict": dict,
+            "vars": Builtin("vars", lambda o: I.getattr(o, "__dict__")),
             "set": set,
             "str": str,
             "repr": Builtin("repr", lambda x: repr(x)),
@@ -1502,6 +1654,12 @@ class Interp:
                 return n
             return Obj("dtype", {"itemsize": DT[n], "name": n, "type": Builtin(f"{n}.type", lambda v=0: Opaque(f"{n}({v!r})")), "str": n}, name=f"dtype({n})")
 
+        def _num1(fn, x):
+            import math as _m
+            if isinstance(x, bool) or not isinstance(x, (int, float)):
+                raise AnalysisError(f"peval: np.{fn} of a non-concrete value {x!r}")
+            return float(getattr(_m, fn)(x))
+
         tbl = {
             "prod": Builtin("np.prod", prod),
             "empty": Builtin("np.empty", empty),
@@ -1514,7 +1672,14 @@ class Interp:
             "ndindex": Builtin("np.ndindex", ndindex),
             "dtype": Builtin("np.dtype", dtype),
             "integer": Opaque("np.integer"),
+            "floating": Opaque("np.floating"),
+            "number": Opaque("np.number"),
+            "isfinite": Builtin("np.isfinite", lambda x: Unk(f"isfinite({x!r})") if isinstance(x, (Sym, Opaque)) else (x == x and abs(x) != float("inf"))),
+            "isnan": Builtin("np.isnan", lambda x: Unk(f"isnan({x!r})") if isinstance(x, (Sym, Opaque)) else x != x),
+            "isinf": Builtin("np.isinf", lambda x: Unk(f"isinf({x!r})") if isinstance(x, (Sym, Opaque)) else abs(x) == float("inf")),
             "ndarray": Opaque("np.ndarray"),
+            "ceil": Builtin("np.ceil", lambda x: _num1("ceil", x)),
+            "floor": Builtin("np.floor", lambda x: _num1("floor", x)),
         }
         return Namespace("np", tbl)
 
